@@ -57,6 +57,7 @@ static void* fib(void* p) {
         g_ready(i);
         RS0(fiber_yield);
         g_running(i);
+        g_done(); /* (a step of a bounded loop is progress: in a crowd one round of yields is 100 000 scheduling points) */
       }
       flag[spec[i].flag_idx] = 1;
       break;
@@ -74,19 +75,23 @@ static void* fib(void* p) {
         g_ready(i);
         RS0(fiber_yield);
         g_running(i);
+        g_done();
       }
       RS1(fiber_mutex_lock, &mx);
       g_running(i);
+      g_done();
       fiber_mutex_unlock(&mx);
       flag[spec[i].flag_idx] = 1;
       break;
     case ROLE_HOLDER:
       RS1(fiber_mutex_lock, &mx);
       g_running(i);
+      g_done();
       for (int k = 0; k < spec[i].k; k++) {
         g_ready(i);
         RS0(fiber_yield);
         g_running(i);
+        g_done();
       }
       fiber_mutex_unlock(&mx);
       while (!flag[spec[i].flag_idx]) {
